@@ -47,6 +47,8 @@ type c04World struct {
 	inCallback                         int
 	selfSchedulesInRepeating           int
 	zeroDelayAfterOwnCancel            int
+	fractionalDelays                   int
+	zeroDelayNotInline                 int
 	inRepeatingCallbackOf              map[*c04Timer]int
 	firedThisPoll                      int
 }
@@ -143,6 +145,11 @@ func (x *c04World) behave(self *c04Timer, what string) {
 
 func (x *c04World) schedule(t *c04Timer, d time.Duration, repeating bool) {
 	c := x.c
+	if d > 0 && d < 100*time.Millisecond && x.r.Chance(1, 3) {
+		// delays and intervals are not whole milliseconds: 2.9 ms is not 2 ms, 0.3 ms is not "never"
+		d = d - time.Millisecond + time.Duration(x.r.Range(1, 999))*time.Microsecond
+		x.fractionalDelays++
+	}
 	prev := t.state
 	id := t.sched + 1
 	var cb func()
@@ -232,8 +239,12 @@ func (x *c04World) schedule(t *c04Timer, d time.Duration, repeating bool) {
 		} else if err != nil {
 			c.Failf("schedule-failed-on-ready-timer", "timer %d: ScheduleOnce(%v) on a ready timer returned %v", t.id, d, err)
 			t.state = tReady
-		} else if d <= 0 && t.fires[id] != 1 {
-			c.Failf("nonpositive-delay-did-not-run-at-once", "timer %d: ScheduleOnce(%v) ran its callback %d times before returning", t.id, d, t.fires[id])
+		} else if d <= 0 && t.fires[id] > 1 {
+			c.Failf("timer-fired-twice", "timer %d: ScheduleOnce(%v) ran its callback %d times before returning", t.id, d, t.fires[id])
+		} else if d <= 0 && t.fires[id] == 0 {
+			// "as soon as possible" need not be "before ScheduleOnce returns": then the callback is still due, the model
+			// keeps the schedule (Scheduled() must say so, Cancel must withdraw it, it must run when the loop is polled)
+			x.zeroDelayNotInline++
 		}
 	case tScheduled:
 		if err == nil {
@@ -503,6 +514,8 @@ func runC04(c *vf.Case) {
 	c.Count("repeating_ticks", x.ticks)
 	c.Count("schedule_calls_on_a_repeating_timer_from_its_own_callback", x.selfSchedulesInRepeating)
 	c.Count("zero_delay_schedules_after_cancelling_the_own_repeating_series", x.zeroDelayAfterOwnCancel)
+	c.Count("schedules_with_a_delay_that_is_not_a_whole_number_of_milliseconds", x.fractionalDelays)
+	c.Count("zero_delay_callbacks_still_due_when_the_call_returned", x.zeroDelayNotInline)
 	if x.minSlack != 0 {
 		c.Min("min_slack_ns", int64(x.minSlack))
 	}
